@@ -121,10 +121,10 @@ VARIABLES
     tfl,            \* B: re-issues started by timers: set of [id, st, out]
     hs,             \* B: handshakes: client -> [pc, name, res, n]
     pfault,         \* B: how Vault answers issue requests at present
-    asked, presentedExpired, benv,
+    asked, presentedExpired, dupIssue, benv,
     tnow, texp, trenewable, tdead, kpc, tat, tfailed, tfault, cenv, treqs
 
-bvars == <<certs, store, cache, pending, flight, tfl, hs, pfault, asked, presentedExpired, benv>>
+bvars == <<certs, store, cache, pending, flight, tfl, hs, pfault, asked, presentedExpired, dupIssue, benv>>
 cvars == <<tnow, texp, trenewable, tdead, kpc, tat, tfailed, tfault, cenv, treqs>>
 vars == <<avars, bvars, cvars>>
 
@@ -179,28 +179,31 @@ AFair == WF_vars(KLoad) /\ WF_vars(KPublish) /\ WF_vars(KSleep)
 
 IssueFaults == {"none", "500", "sealed", "403", "malformed", "nokey", "nocert", "badpem"}
 NoFlight == [st |-> "none", out |-> 0]
-IdleHs == [pc |-> "idle", name |-> "", res |-> 0, n |-> 0]
+IdleHs == [pc |-> "idle", name |-> "", res |-> 0, n |-> 0, live |-> FALSE]
 Ids == 1..Len(certs)
 Snap(c) == {c[n] : n \in {m \in PNames : c[m] > 0}}
 Match(n) == {i \in store : certs[i].name = n /\ (ServesExpired \/ certs[i].st # "expired")}
 Live == {i \in store : ServesExpired \/ certs[i].st # "expired"}
 
+\* the cache holds a certificate for n that has not expired
+LiveInCache(n) == cache[n] > 0 /\ certs[cache[n]].st # "expired"
+
 BInit ==
     /\ certs = <<>> /\ store = {} /\ cache = [n \in PNames |-> 0] /\ pending = {}
     /\ flight = [n \in PNames |-> NoFlight] /\ tfl = {} /\ hs = [c \in Clients |-> IdleHs]
-    /\ pfault = "none" /\ asked = {} /\ presentedExpired = FALSE /\ benv = 0
+    /\ pfault = "none" /\ asked = {} /\ presentedExpired = FALSE /\ dupIssue = FALSE /\ benv = 0
 
 BOnly == UNCHANGED <<avars, cvars>>
 
 PFault(f) ==
     /\ benv < MaxEnv /\ f # pfault /\ pfault' = f /\ benv' = benv + 1
-    /\ UNCHANGED <<certs, store, cache, pending, flight, tfl, hs, asked, presentedExpired>> /\ BOnly
+    /\ UNCHANGED <<certs, store, cache, pending, flight, tfl, hs, asked, presentedExpired, dupIssue>> /\ BOnly
 
 HsStart(c, n) ==        \* a client opens a handshake with server name n
     /\ hs[c].pc \in {"idle", "done"} /\ hs[c].n < MaxHs
-    /\ hs' = [hs EXCEPT ![c] = [pc |-> "started", name |-> n, res |-> 0, n |-> @.n + 1]]
+    /\ hs' = [hs EXCEPT ![c] = [pc |-> "started", name |-> n, res |-> 0, n |-> @.n + 1, live |-> LiveInCache(n)]]
     /\ asked' = asked \cup {n}
-    /\ UNCHANGED <<certs, store, cache, pending, flight, tfl, pfault, presentedExpired, benv>> /\ BOnly
+    /\ UNCHANGED <<certs, store, cache, pending, flight, tfl, pfault, presentedExpired, dupIssue, benv>> /\ BOnly
 
 Present(c, i) ==
     /\ hs' = [hs EXCEPT ![c].pc = "got", ![c].res = i]
@@ -209,28 +212,36 @@ Present(c, i) ==
 HsHit(c) ==             \* the store has a certificate for the name
     /\ hs[c].pc = "started" /\ Match(hs[c].name) # {}
     /\ \E i \in Match(hs[c].name) : Present(c, i)
-    /\ UNCHANGED <<certs, store, cache, pending, flight, tfl, pfault, asked, benv>> /\ BOnly
+    /\ UNCHANGED <<certs, store, cache, pending, flight, tfl, pfault, asked, dupIssue, benv>> /\ BOnly
 
 HsFallback(c) ==        \* strictmatch=false: "the first certificate is used if no matching certificate was found"
     /\ ~Strict /\ hs[c].pc = "started" /\ Match(hs[c].name) = {} /\ Live # {}
     /\ \E i \in Live : Present(c, i)
-    /\ UNCHANGED <<certs, store, cache, pending, flight, tfl, pfault, asked, benv>> /\ BOnly
+    /\ UNCHANGED <<certs, store, cache, pending, flight, tfl, pfault, asked, dupIssue, benv>> /\ BOnly
 
 HsMiss(c) ==            \* nothing suitable: ask the issuer
     /\ hs[c].pc = "started" /\ Match(hs[c].name) = {} /\ (Strict \/ Live = {})
     /\ hs' = [hs EXCEPT ![c].pc = "miss"]
-    /\ UNCHANGED <<certs, store, cache, pending, flight, tfl, pfault, asked, presentedExpired, benv>> /\ BOnly
+    /\ UNCHANGED <<certs, store, cache, pending, flight, tfl, pfault, asked, presentedExpired, dupIssue, benv>> /\ BOnly
 
 HsJoin(c) ==            \* an issue for the name is under way: wait for its result
     /\ hs[c].pc = "miss" /\ flight[hs[c].name].st # "none"
     /\ hs' = [hs EXCEPT ![c].pc = "wait"]
-    /\ UNCHANGED <<certs, store, cache, pending, flight, tfl, pfault, asked, presentedExpired, benv>> /\ BOnly
+    /\ UNCHANGED <<certs, store, cache, pending, flight, tfl, pfault, asked, presentedExpired, dupIssue, benv>> /\ BOnly
 
-HsLead(c) ==            \* ... or start one
-    /\ hs[c].pc = "miss" /\ flight[hs[c].name].st = "none"
-    /\ hs' = [hs EXCEPT ![c].pc = "wait"]
+\* the documented design looks into the cache once more inside the flight (AsyncInstall = FALSE)
+CacheServes(n) == ~AsyncInstall /\ cache[n] > 0 /\ (ServesExpired \/ certs[cache[n]].st # "expired")
+
+HsCached(c) ==          \* ... or, nothing under way, find the certificate in the issuer's cache
+    /\ hs[c].pc = "miss" /\ flight[hs[c].name].st = "none" /\ CacheServes(hs[c].name)
+    /\ Present(c, cache[hs[c].name])
+    /\ UNCHANGED <<certs, store, cache, pending, flight, tfl, pfault, asked, dupIssue, benv>> /\ BOnly
+
+HsLead(c) ==            \* ... or start an issue
+    /\ hs[c].pc = "miss" /\ flight[hs[c].name].st = "none" /\ ~CacheServes(hs[c].name)
+    /\ hs' = [hs EXCEPT ![c].pc = "lead"]
     /\ flight' = [flight EXCEPT ![hs[c].name] = [st |-> "lead", out |-> 0]]
-    /\ UNCHANGED <<certs, store, cache, pending, tfl, pfault, asked, presentedExpired, benv>> /\ BOnly
+    /\ UNCHANGED <<certs, store, cache, pending, tfl, pfault, asked, presentedExpired, dupIssue, benv>> /\ BOnly
 
 \* Vault decides an issue request for name n when it arrives: a new certificate or a failure
 Decide(n) == IF pfault = "none" /\ Len(certs) < MaxIssue
@@ -242,12 +253,13 @@ IssueReq(n) ==
     /\ flight[n].st = "lead" /\ CanDecide
     /\ flight' = [flight EXCEPT ![n] = [st |-> "req", out |-> Decide(n).out]]
     /\ certs' = Decide(n).certs
+    /\ dupIssue' = (dupIssue \/ (LiveInCache(n) /\ \E c \in Clients : hs[c].pc = "lead" /\ hs[c].name = n /\ hs[c].live))
     /\ UNCHANGED <<store, cache, pending, tfl, hs, pfault, asked, presentedExpired, benv>> /\ BOnly
 
 IssueResp(n) ==
     /\ flight[n].st = "req"
     /\ flight' = [flight EXCEPT ![n].st = "resp"]
-    /\ UNCHANGED <<certs, store, cache, pending, tfl, hs, pfault, asked, presentedExpired, benv>> /\ BOnly
+    /\ UNCHANGED <<certs, store, cache, pending, tfl, hs, pfault, asked, presentedExpired, dupIssue, benv>> /\ BOnly
 
 \* the issuer caches the certificate, arms the re-issue timer and publishes a snapshot
 Publish(newcache) ==
@@ -258,42 +270,42 @@ Arm(cs, i) == [cs EXCEPT ![i].timer = "armed"]
 FlightRet(n) ==         \* Issue returns: every handshake that waited for it gets the result
     /\ flight[n].st = "resp"
     /\ LET i == flight[n].out IN
-       /\ hs' = [c \in Clients |-> IF hs[c].pc = "wait" /\ hs[c].name = n
+       /\ hs' = [c \in Clients |-> IF hs[c].pc \in {"wait", "lead"} /\ hs[c].name = n
                                    THEN [hs[c] EXCEPT !.pc = IF i > 0 THEN "got" ELSE "failed", !.res = i] ELSE hs[c]]
        /\ IF i > 0 THEN /\ cache' = [cache EXCEPT ![n] = i] /\ certs' = Arm(certs, i)
                         /\ Publish([cache EXCEPT ![n] = i])
                    ELSE UNCHANGED <<cache, certs, pending, store>>
     /\ flight' = [flight EXCEPT ![n] = NoFlight]
-    /\ UNCHANGED <<tfl, pfault, asked, presentedExpired, benv>> /\ BOnly
+    /\ UNCHANGED <<tfl, pfault, asked, presentedExpired, dupIssue, benv>> /\ BOnly
 
 Deliver(s) ==           \* one of the waiting snapshots reaches Store.SetCertificates
     /\ s \in pending
     /\ store' = s /\ pending' = pending \ {s}
-    /\ UNCHANGED <<certs, cache, flight, tfl, hs, pfault, asked, presentedExpired, benv>> /\ BOnly
+    /\ UNCHANGED <<certs, cache, flight, tfl, hs, pfault, asked, presentedExpired, dupIssue, benv>> /\ BOnly
 
 HsEnd(c) ==
     /\ hs[c].pc \in {"got", "failed"}
     /\ hs' = [hs EXCEPT ![c].pc = "done"]
-    /\ UNCHANGED <<certs, store, cache, pending, flight, tfl, pfault, asked, presentedExpired, benv>> /\ BOnly
+    /\ UNCHANGED <<certs, store, cache, pending, flight, tfl, pfault, asked, presentedExpired, dupIssue, benv>> /\ BOnly
 
 \* ---- time: a certificate's timer fires `refresh` before NotAfter, then the certificate expires
 TimerFire(i) ==
     /\ i \in Ids /\ certs[i].timer = "armed"
     /\ certs' = [certs EXCEPT ![i].timer = "fired"]
     /\ tfl' = tfl \cup {[id |-> i, st |-> "lead", out |-> 0]}
-    /\ UNCHANGED <<store, cache, pending, flight, hs, pfault, asked, presentedExpired, benv>> /\ BOnly
+    /\ UNCHANGED <<store, cache, pending, flight, hs, pfault, asked, presentedExpired, dupIssue, benv>> /\ BOnly
 
 TIssueReq(t) ==
     /\ t \in tfl /\ t.st = "lead" /\ CanDecide
     /\ LET d == Decide(certs[t.id].name) IN
        /\ tfl' = (tfl \ {t}) \cup {[t EXCEPT !.st = "req", !.out = d.out]}
        /\ certs' = d.certs
-    /\ UNCHANGED <<store, cache, pending, flight, hs, pfault, asked, presentedExpired, benv>> /\ BOnly
+    /\ UNCHANGED <<store, cache, pending, flight, hs, pfault, asked, presentedExpired, dupIssue, benv>> /\ BOnly
 
 TIssueResp(t) ==
     /\ t \in tfl /\ t.st = "req"
     /\ tfl' = (tfl \ {t}) \cup {[t EXCEPT !.st = "resp"]}
-    /\ UNCHANGED <<certs, store, cache, pending, flight, hs, pfault, asked, presentedExpired, benv>> /\ BOnly
+    /\ UNCHANGED <<certs, store, cache, pending, flight, hs, pfault, asked, presentedExpired, dupIssue, benv>> /\ BOnly
 
 TRet(t) ==              \* a failed re-issue is logged and forgotten ("TODO: Now what?")
     /\ t \in tfl /\ t.st = "resp"
@@ -302,12 +314,12 @@ TRet(t) ==              \* a failed re-issue is logged and forgotten ("TODO: Now
        IF t.out > 0 THEN /\ cache' = [cache EXCEPT ![n] = t.out] /\ certs' = Arm(certs, t.out)
                          /\ Publish([cache EXCEPT ![n] = t.out])
                     ELSE UNCHANGED <<cache, certs, pending, store>>
-    /\ UNCHANGED <<flight, hs, pfault, asked, presentedExpired, benv>> /\ BOnly
+    /\ UNCHANGED <<flight, hs, pfault, asked, presentedExpired, dupIssue, benv>> /\ BOnly
 
 Expire(i) ==            \* NotAfter passes (after the timer, which is set `refresh` earlier)
     /\ i \in Ids /\ certs[i].timer = "fired" /\ certs[i].st # "expired"
     /\ certs' = [certs EXCEPT ![i].st = "expired"]
-    /\ UNCHANGED <<store, cache, pending, flight, tfl, hs, pfault, asked, presentedExpired, benv>> /\ BOnly
+    /\ UNCHANGED <<store, cache, pending, flight, tfl, hs, pfault, asked, presentedExpired, dupIssue, benv>> /\ BOnly
 
 BNext ==
     \/ \E f \in IssueFaults : PFault(f)
@@ -316,6 +328,7 @@ BNext ==
     \/ \E c \in Clients : HsFallback(c)
     \/ \E c \in Clients : HsMiss(c)
     \/ \E c \in Clients : HsJoin(c)
+    \/ \E c \in Clients : HsCached(c)
     \/ \E c \in Clients : HsLead(c)
     \/ \E n \in PNames : IssueReq(n)
     \/ \E n \in PNames : IssueResp(n)
@@ -330,7 +343,7 @@ BNext ==
 
 \* ---- properties of Part B
 BTypeOK == /\ store \subseteq Ids /\ \A n \in PNames : cache[n] \in 0..Len(certs)
-           /\ \A c \in Clients : hs[c].pc \in {"idle", "started", "miss", "wait", "got", "failed", "done"}
+           /\ \A c \in Clients : hs[c].pc \in {"idle", "started", "miss", "wait", "lead", "got", "failed", "done"}
 \* an issued certificate is never presented for another name (listeners with strictmatch=true;
 \* without it proxy.addr documents the fall-back to "the first certificate")
 BRightName == Strict => \A c \in Clients : (hs[c].pc \in {"got", "done"} /\ hs[c].res > 0) => certs[hs[c].res].name = hs[c].name
@@ -343,9 +356,11 @@ BStoreOnePerName == \A i, j \in store : certs[i].name = certs[j].name => i = j
 \* what IS promised about concurrent issues (golang.org/x/sync/singleflight in TLSConfig): the
 \* handshakes that wait for a name share ONE request -- flight is a function of the name, and a
 \* handshake only starts a request when none is under way (HsLead).  Timers are outside of it.
-BOneFlight == \A n \in PNames : flight[n].st = "none" => \A c \in Clients : ~(hs[c].pc = "wait" /\ hs[c].name = n)
-\* every name is served from the cache after its first issue: one live chain of re-issues
-BOneChainPerName == \A n \in PNames : Cardinality({i \in Ids : certs[i].name = n /\ certs[i].timer = "armed"}) <= 1
+BOneFlight == \A n \in PNames : /\ Cardinality({c \in Clients : hs[c].pc = "lead" /\ hs[c].name = n}) <= 1
+                                  /\ flight[n].st = "none" => \A c \in Clients : ~(hs[c].pc \in {"wait", "lead"} /\ hs[c].name = n)
+\* a handshake that begins when the issuer holds an unexpired certificate for its name is served
+\* from the cache: it does not make Vault issue another one
+BServedFromCache == ~dupIssue
 \* "re-issue them <refresh> before they expire": an expired certificate is never presented
 BExpiredNeverPresented == ~presentedExpired
 \* a failed issue fails the handshakes that waited for it and nobody else: the next one retries
